@@ -151,8 +151,8 @@ impl Property for C09 {
     }
     fn cases(&self, tier: Tier) -> u64 {
         match tier {
-            Tier::Quick => 150_000,
-            Tier::Thorough => 4_000_000,
+            Tier::Quick => 600000,
+            Tier::Thorough => 8000000,
         }
     }
     fn decode(&mut self, tape: &TapeVal) -> Case {
